@@ -22,6 +22,36 @@ CLAIMED = {
     ),
 }
 
+
+TECH = "contract-based deductive verification: weakest-precondition VCs over go/ssa of the working tree, discharged by z3/cvc5"
+BASE = ("Trusted: govc's SSA->SMT translation, go/types+go/ssa, the SMT solvers, the assumed contracts of external functions named in the "
+        "evidence (trusted/*.spec), Go memory safety, mutex atomicity. Partial correctness (no termination claim unless a decreases obligation is listed). ")
+
+def claim(pid, text, note="", residual=(), assumed=(), pkgs=None):
+    d = dict(text=text, note=BASE + note, technique=TECH, residual=list(residual), assumed=list(assumed))
+    if pkgs:
+        d["pkgs"] = pkgs
+    CLAIMED[pid] = d
+
+claim("C05", "Proof of buildErrorExtra's type-selection contract for every dynamic error type: RpcError -> its Type, each typed framework error -> its wire name (each ErrorType method has its own proved contract), every other error value (foreign dynamic types included) -> RuntimeError; traceback and frames absent unless debug.",
+      "json.Marshal renders the struct it is given (assumed).", ["message passthrough (err.Error()) and JSON rendering", "the recover wrappers that build RuntimeError RpcErrors for panics are not under contract yet"])
+claim("C08", "Proof, for all int64/time.Time inputs, of the scalar time codecs against a mathematical time model (nsOf): daysSinceEpoch is the floor UTC day for every representable date32, microsSinceMidnight is the exact microsecond of day, timestampToTime is the exact instant for every unit and every int64, plus round-trip lemmas at wire precision.",
+      "time package model of trusted/stdlib.spec (Unix, UTC, Add exact, Sub saturating, Clock on UTC).", ["the reflect-driven struct walk, lists/maps/structs/decimals/enums/strings", "Arrow builders storing what they are given", "duration decode arm inside setFieldFromArrow (reflect function)"])
+claim("C10", "Proof that parseSemver yields the numeric major/minor of a canonical version (refusing parts that do not fit an int) and that checkProtocolVersion returns nil iff the version is present, canonical and numerically equal in major.minor to the server's; panic-freedom of parseSemver.",
+      "semverRegex facts and strconv.Atoi incl. its clamped range-error result are assumed contracts.", ["the three gate call sites (serveOne, handleUnary, handleStreamInit) are not under contract yet", "message text parity with Python"])
+claim("C15", "Proof that checkTokenAge refuses exactly tokens older than the TTL, and call-site obligations that every call-cache insertion (mint path and cache-miss path) is stamped with the authenticated token's own creation time, only after age and call-id checks, and that the cache computes expiry as createdAt+ttl.",
+      "time.Since modelled as one clock reading per call; container/list not modelled.", ["callStateCache.get expiry comparison and LRU eviction (container/list)", "cross-instance interleavings"])
+claim("C18", "Proof of readHTTPBody's cap selection, exact saturating cap arithmetic (no int64 wraparound), read-at-most-cap+1, refusal type of oversize bodies, identity passthrough, the decoded-cap formula; decompressBounded's output bound and unknown-coding error type; DecodeContentEncoding index safety and termination; writeBodyReadError's 413/415/400 mapping.",
+      "io.LimitReader/io.ReadAll contracts assumed; zstd/gzip decoders are unknown calls.", ["decoded bytes equal what the client encoded (codec correctness)", "streaming-frame window behaviour"])
+claim("C19", "Proof of enforceResponseBudgets' decision table and error kinds, and of checkExternalBudget's pre-flight refusal condition and disabled cases.",
+      "", ["the producer loop's wire-byte cap (runProduceLoop never consults max_response_bytes: reproduced defect, not yet under contract)", "unary/exchange call sites of enforceResponseBudgets"])
+claim("C22", "Proof, over every control-flow path of handleUnary, handleStreamInit, handleStreamExchange, handleUploadURLInit and handleIntrospectToken, that every call they make (body read, method lookup, handler, provider, resolver, hook, state method) is reached only after authenticate returned non-nil for this request; handleDescribe requires the same of its caller.",
+      "admitted(r) is a ghost predicate whose only source is authenticate's result (establishes clause).", ["the route table itself (that no other registered route reaches sensitive code) is checked by reading initRoutes, not yet by an obligation", "session-delete and page routes are outside by the property's own allow-list"])
+claim("C25", "Proof that VerifyProof computes and compares the MAC and records the nonce only inside the two-sided timestamp window, over exactly this proof's fields and this worker's origin, after the MAC matched; that the nonce cache TTL covers the whole acceptance window (lemma nonceWindowCovered + call-site obligation); that in require mode the inner authenticator is reachable only after a verified proof.",
+      "HMAC/ConstantTimeCompare idealisation; clock readings at or after 1970.", ["canonical-string injectivity (proofCanonicalString layout) not yet under contract", "nonceCache internals (container/list)"])
+claim("C27", "Proof that unpackOAuthCookie is panic-free for every cookie string, parses fields only after the MAC verified and keeps every field inside the payload; proof of packOAuthCookie's payload layout; the length-prefix exactness obligations fail for fields >= 64 KiB and are recorded as a known finding.",
+      "HMAC/base64 idealisation.", ["validateReturnTo / validateOriginalURL and the callback gates are not under contract yet", "round-trip lemma over the two layouts"])
+
 # properties not claimed: reason
 NOT_APPLICABLE = {
     "C11": "relational two-run equivalence between the pipe loop and the HTTP handlers routed through gob, AEAD and Arrow IPC; contracts here are single-run and per function",
